@@ -133,6 +133,7 @@ func TestRandomScripts(t *testing.T) {
 		mutex := rapid.SampledFrom([]string{"starving", "dag", "dag"}).Draw(rt, "mutex")
 		s := genScript(rt, mutex, 4, 3, 3)
 		res := runScript(s, nil)
+		noteParking(check, res)
 		stats.Case(check, res.Blocked > 0 || res.MaxQueued >= 2, s.key(), s.sample, scriptLabels(s, res)...)
 		if res.Kind != "" {
 			stats.Violation(check, res.payload(s, nil))
@@ -171,6 +172,7 @@ func TestUnlockNotHeld(t *testing.T) {
 			inj.Op = runlockOp(es...)
 		}
 		res := runScript(s, inj)
+		noteParking(check, res)
 		labels := scriptLabels(s, res)
 		if res.Injected {
 			labels = append(labels, "executed:"+res.InjClass)
